@@ -200,7 +200,7 @@ def run(ctx):
     if not bad:
         ok, info, tres = ctx.validate("TraceIdentity", "TraceIdentity.cfg", rec, timeout=3000 if thorough else 600, heap="6g")
         if not ok:
-            at = tres.distinct - 1
+            at = tres.distinct  # 1-based number of the first record the model cannot follow
             # reconstruct the history the offending record belongs to
             h, k = [], 0
             for r in recorded[:at]:
